@@ -47,9 +47,9 @@ PROPS = {
     },
     "C06": {
         "file": "C06.v",
-        "streams": [S("cache", 250, 4000, focus="C06"), S("conc", 24, 400, timeout=2400)],
+        "streams": [S("cache", 250, 4000, focus="C06"), S("conc", 24, 400, timeout=2400), S("nl", 150, 3000)],
         "claim": "Theorems over ghost logs threaded through the model (glog: every write/replace/clear/drop; nlog: notifications): conservation for every (key,value) after every history (#written = #resident + #replaced + #cleared + #dropped), the notification log is exactly the dropped entries whose reason is in the listener mask, in order, once each; nothing is reported for a resident entry; an entry whose last event is a drop is not readable; reasons: deleted only by Delete of that key, expired only for 0<deadline<now met by Get/Exists/Cleanup, capacity only for a published entry displaced while writes are applied, rejected only under Sieve for the write's own unpublished candidate or an entry displaced by that write; replacement, Clear's and Close's clearing step stage nothing. Tied to /repo by T-trace with real listeners (OnRemove, OnEvict, both), notifications compared per operation, an independent Go ledger monitor, and concurrent histories with a value-unique ledger (stress, Close with staged notifications).",
-        "note": "Trusted: Coq kernel, extraction, driver, harness, hooks. Delivery is proved on a separate LTS (NotifierProofs.v: staging buffers, pending flags, coalescing token, one notifier, re-entrant listeners: nothing fabricated or duplicated, FIFO per shard, no lost wake-up, everything staged before the final drain's visit delivered exactly once before Close returns; F14 = what is staged later is lost); that LTS is hand-written from eviction.go/shard.go and is tied to the code only through the cache stream (staged vs received after settling), the closeNotify and closeDrainNotify probes and the conc ledger, not by a step-by-step diff. F2 (unpublished candidate reported as capacity) was found here and fixed; F7 (listener calling Close) is recorded under C07/C08.",
+        "note": "Trusted: Coq kernel, extraction, driver, harness, hooks. Delivery is proved on a separate LTS (NotifierProofs.v: staging buffers, pending flags, coalescing token, one notifier, re-entrant listeners: nothing fabricated or duplicated, FIFO per shard, no lost wake-up, everything staged before the final drain's visit delivered exactly once before Close returns; F14 = what is staged later is lost); that LTS is hand-written from eviction.go/shard.go and tied to the code by the nl lock-step stream (the real notifier goroutine adopted by the scheduler and stepped through its select, per-shard flag loads, lock and listener calls on random schedules with Close; position, wake token, closeCh, pending flags, buffer lengths and deliveries compared after every step), plus the cache stream (staged vs received after settling), the closeNotify / closeDrainNotify / backlog probes and the conc ledger. F2 (unpublished candidate reported as capacity) was found here and fixed; F7 (listener calling Close) is recorded under C07/C08.",
         "assumptions": ["notification delivery is asynchronous; comparison happens after the notifier has drained"],
     },
     "C10": {
